@@ -13,9 +13,13 @@ from pathlib import Path
 
 ap = argparse.ArgumentParser()
 ap.add_argument("name"); ap.add_argument("prop"); ap.add_argument("src")
-ap.add_argument("--checks", nargs="*"); ap.add_argument("--skip-suite", action="store_true"); ap.add_argument("--seed", default="1")
+ap.add_argument("--checks", nargs="*"); ap.add_argument("--skip-suite", action="store_true"); ap.add_argument("--recheck", action="store_true", help="only re-run the quick checks against the stored patch and update meta.json"); ap.add_argument("--seed", default="1")
 a = ap.parse_args()
 src = Path(a.src)
+old = {}
+_mf = Path("/verif/seeded") / a.name / "meta.json"
+if _mf.exists():
+    old = json.loads(_mf.read_text())
 wt = Path(f"/tmp/vseed_{a.name}")
 subprocess.run(["git", "-C", "/repo", "worktree", "remove", "--force", str(wt)], capture_output=True)
 subprocess.run(["git", "-C", "/repo", "worktree", "add", "-q", "--detach", str(wt), "HEAD"], check=True)
@@ -24,8 +28,11 @@ try:
     env = dict(os.environ, PYTHONPATH=str(wt), TQDM_DISABLE="1")
     def demo():
         return subprocess.run(["/venv/bin/python", str(src / "demo.py")], cwd=str(wt), env=env, capture_output=True, text=True, timeout=1800)
-    r0 = demo()
-    meta["demo_on_clean_tree_exit"] = r0.returncode
+    if a.recheck:
+        meta = dict(old, repo_commit=meta["repo_commit"])
+    else:
+        r0 = demo()
+        meta["demo_on_clean_tree_exit"] = r0.returncode
     ap_ = subprocess.run(["git", "-C", str(wt), "apply", str(src / "patch.diff")], capture_output=True, text=True)
     if ap_.returncode:
         print("patch does not apply:", ap_.stderr); meta["patch_applies"] = False
@@ -33,10 +40,11 @@ try:
         meta["patch_applies"] = True
         imp = subprocess.run(["/venv/bin/python", "-c", "import pyxel, pyxel.calibration, pyxel.models"], cwd=str(wt), env=env, capture_output=True, text=True)
         meta["imports"] = imp.returncode == 0
-        r1 = demo()
-        meta["demo_on_changed_tree_exit"] = r1.returncode
-        meta["demo_tail"] = (r1.stdout + r1.stderr)[-600:]
-        if not a.skip_suite:
+        if not a.recheck:
+            r1 = demo()
+            meta["demo_on_changed_tree_exit"] = r1.returncode
+            meta["demo_tail"] = (r1.stdout + r1.stderr)[-600:]
+        if not a.skip_suite and not a.recheck:
             b = subprocess.run(["/verif/tools/baseline.py", str(wt)], capture_output=True, text=True)
             meta["suite"] = b.stdout.strip().splitlines()[-1] if b.stdout.strip() else b.stderr[-300:]
             meta["suite_ok"] = b.returncode == 0
@@ -48,13 +56,21 @@ try:
             caught[c] = {"exit": r.returncode, "signatures": [s[:200] for s in sigs[:6]]}
             for f in Path("/verif/replays", c).glob("found_*.json"):
                 f.unlink()
-        meta["quick_checks_against_change"] = caught
+        prev = dict(old.get("quick_checks_against_change", {})) if a.recheck else {}
+        if a.recheck and "first_version_of_check" not in meta:
+            meta["first_version_of_check"] = {c: v["exit"] for c, v in prev.items()}
+        prev.update(caught)
+        meta["quick_checks_against_change"] = prev
+        meta["checks_at_verif_commit"] = subprocess.run(["git", "-C", "/verif", "rev-parse", "--short", "HEAD"], capture_output=True, text=True).stdout.strip()
     dest = Path("/verif/seeded") / a.name
     dest.mkdir(parents=True, exist_ok=True)
+    for k in ("needs", "history"):
+        if k in old and k not in meta:
+            meta[k] = old[k]
     for f in ("patch.diff", "demo.py", "NOTES.md"):
-        if (src / f).exists():
+        if (src / f).exists() and (src / f).resolve() != (dest / f).resolve():
             shutil.copy(src / f, dest / f)
-    confirmed = meta.get("patch_applies") and meta.get("imports") and meta.get("demo_on_clean_tree_exit") == 0 and meta.get("demo_on_changed_tree_exit", 0) != 0 and meta.get("suite_ok", a.skip_suite)
+    confirmed = meta.get("confirmed") if a.recheck else meta.get("patch_applies") and meta.get("imports") and meta.get("demo_on_clean_tree_exit") == 0 and meta.get("demo_on_changed_tree_exit", 0) != 0 and meta.get("suite_ok", a.skip_suite)
     meta["confirmed"] = bool(confirmed)
     (dest / "meta.json").write_text(json.dumps(meta, indent=1))
     print(json.dumps(meta, indent=1))
